@@ -23,7 +23,7 @@ CHECKS = {
  "C05": dict(engine="E5 corrupt-file pipeline in crash-isolated workers (sim c05r / c05a)", category="exploration", design_ref="5.7",
    technique="fault injection on stored bytes (torn/lost/duplicated/reordered lines, bit flips, corrupted numbers, re-encoding) feeding the whole public pipeline in worker processes under RLIMIT_AS with a watchdog; stalled or dead workers are bisected to the in-flight run via progress markers",
    text="Seeded storage-fault injection over real and generated files, two domains (realistic: checked + plain build; adversarial: plain build); every public call unwound separately; process-level crash/hang isolation.",
-   note="The time budget is 30 CPU-seconds per call / 180 s per run alone (three orders of magnitude above typical); the memory budget is RLIMIT_AS 4 GiB. One known finding (hours-long sliders in osu!catch) is listed in known_findings.txt."),
+   note="The time budget is 30 CPU-seconds per call / 90 s per run alone (three orders of magnitude above typical); the memory budget is RLIMIT_AS 4 GiB. One known finding (hours-long sliders in osu!catch) is listed in known_findings.txt."),
  "C06": dict(engine="E2 simulated reader + stored-byte faults (sim c06)", category="fault_enumeration", design_ref="5.6",
    technique="fault injection through the decoder's existing BufRead seam: seeded and, for small files, enumerated short reads, EINTR, hard I/O errors and premature EOF over stored bytes that went through seeded storage faults; single-chunk decode, single-line decode and torn-prefix decode as reference models",
    text="For ~12% of files <= 600 bytes every two-chunk split, truncation offset, EINTR position and hard-error offset is enumerated; everything else is seeded sampling. Seven oracles (totality, schedule independence, error containment, torn-file equivalence, entry-point agreement, well-formedness, sound pairing).",
